@@ -232,6 +232,35 @@ def _texts(ctx, n):
     return out, dist
 
 
+def long_filter_failure(kind, text, span):
+    """format(keyword_case, identifier_case, truncate_strings) on a script with one very long region: the region's body is
+    untouched by the case options; a long single-quoted literal is cut to quote + first N + marker + quote."""
+    a, b = span
+    region = text[a:b]
+
+    def fail(obs):
+        return {'input': [ord(c) for c in text[:200]], 'options': {}, 'kind': 'long', 'class': 'long-input',
+                'long_input': {'kind': kind, 'length': len(text)}, 'observed': 'long input (%s, %d characters): %s' % (kind, len(text), obs)}
+    try:
+        out = sqlparse.format(text, keyword_case='upper', identifier_case='upper')
+    except Exception as e:  # noqa
+        return fail('format raised ' + type(e).__name__)
+    if region not in out:
+        return fail('keyword_case/identifier_case changed the body of the region')
+    if ''.join(out.replace(region, '').lower().split()) != ''.join(text.replace(region, '').lower().split()):
+        return fail('case options changed more than letter case outside the region')
+    if kind == 'long-string':
+        try:
+            out = sqlparse.format(text, truncate_strings=10)
+        except Exception as e:  # noqa
+            return fail('format(truncate_strings=10) raised ' + type(e).__name__)
+        want = text[:a] + region[:11] + '[...]' + "'" + text[b:]
+        if ''.join(out.split()) != ''.join(want.split()):
+            return fail('truncate_strings=10 did not cut the literal to its first 10 characters + marker (output length %d, expected %d)'
+                        % (len(out), len(want.rstrip())))
+    return None
+
+
 def run(ctx):
     r = ctx.rng
     res = {'disagreements': [], 'failures': []}
@@ -316,6 +345,14 @@ def run(ctx):
                     res['failures'].append(_fail(s, ('-', '-', '3:-'), 'lexinv', 'String.Single token %r is not quoted' % v))
     dist['lexinv_tokens_checked'] = ninv
 
+    # ---- long literal (oracle only): thresholds on token size must not change what the filters touch
+    for kind, text, span in gens.long_cases(ctx.quick()):
+        if kind not in ('long-string', 'long-dq-name', 'long-block-comment'):
+            continue
+        dist['long:' + kind] += 1
+        f = long_filter_failure(kind, text, span)
+        if f:
+            res['failures'].append(f)
     # ---- stage raw: arbitrary token lists (not lexer-produced), any width
     reqs, keys = [], []
     for _ in range(ctx.n(2500, 20000)):
@@ -381,7 +418,7 @@ def search(ctx, hints):
 
 
 def shrink(f):
-    if not f or 'input' not in f:
+    if not f or 'input' not in f or f.get('long_input'):
         return f
     s = ''.join(map(chr, f['input']))
     opts = f.get('options')
@@ -397,6 +434,11 @@ def replay(payload):
     f = payload.get('failure')
     if not f or 'input' not in f:
         return {'fails': False, 'note': 'no concrete input in replay file: ' + str(payload.get('no_longer_checks'))}
+    if f.get('long_input'):
+        lc = common.long_case_text(f)
+        if lc:
+            g = long_filter_failure(*lc)
+            return {'fails': bool(g), 'observed': g}
     kind = (f.get('kind'),) if f.get('kind') else ALL_KINDS
     g = oracle(''.join(map(chr, f['input'])), f.get('options'), kind)
     return {'fails': bool(g), 'observed': g}
